@@ -25,6 +25,7 @@ func init() {
 			"(e) byte-mutants and truncations of (d) including header edits. Differential oracle: for each document whose first byte is 'c'/'C' (=> CTE) or 0x81 (=> CBE), every universal entry point " +
 			"(ce.UnmarshalFromCEDocument, ce.UnmarshalCE, ce.NewCEDecoder DecodeDocument/Decode with and without rules) must give the same error nil-ness and the same rendered value / event log as the " +
 			"format-specific entry point, and no panic may escape; a document with any other first byte (or none), which both format-specific entry points reject, must be rejected by every universal entry point too. Version oracle (format-specific Unmarshal and decoder+rules): version 1 gives exactly the result of version 0; every other version number is rejected. " +
+			"For reader-based entry points every comparison is repeated with the document handed out by an awkward reader (one of C28's schedules: short reads, reads of nothing, last bytes together with io.EOF), the same schedule for both sides. " +
 			"Directed documents and a quarter of the valid documents are compared again under configurations with MaxDocumentSizeBytes = length-3..length+1, MaxContainerDepth 0..2 and MaxObjectCount 1..3 (including documents of which a shorter prefix is well-formed too). " +
 			"Encoder oracle: every CBE document produced by the encoder or marshaler starts with 81 00, every CTE document with 'c0' followed by whitespace. " +
 			"Documents with any other first byte (or none) are don't-care for the differential (only escaped panics are reported). Non-trivial = detected format and length >= 4; distinct = distinct documents.",
@@ -208,6 +209,23 @@ func c27Differential(c *fw.Ctx, cfg *configuration.Configuration, doc []byte, ho
 			}
 			c.Fail("universal-differs:"+what+":"+ue.Name()+"@"+c27Region(doc), map[string]interface{}{"doc": hexs(doc), "text": short(string(doc), 300),
 				"universal": u.Brief(), "specific": s.Brief(), "specific_entry": se.Name()})
+			continue
+		}
+		if k.Reader && len(doc) > 0 && len(doc) <= 4096 {
+			// the same comparison with the document handed out by an awkward reader (short reads, reads of nothing, last bytes
+			// together with io.EOF): the universal entry point puts its own buffering in front of the format's decoder
+			scheds := c28Schedules(c.Rng, len(doc), 1)
+			sch := scheds[c.Rng.Intn(len(scheds))]
+			u2 := c27Call(ue, doc, sch.Reader(doc), cfg)
+			s2 := c27Call(se, doc, sch.Reader(doc), cfg)
+			c.Eval()
+			c.Inc("differential_pairs_compared_awkward_reader")
+			if u2.Panic != nil || s2.Panic != nil {
+				c.Fail("escaped-panic:awkward-reader:"+ue.Name()+"@"+c27Region(doc), map[string]interface{}{"doc": hexs(doc), "schedule": sch.String(), "universal": u2.Brief(), "specific": s2.Brief()})
+			} else if !c27Same(u2, s2) {
+				c.Fail("universal-differs:awkward-reader:"+ue.Name()+"@"+c27Region(doc), map[string]interface{}{"doc": hexs(doc), "text": short(string(doc), 300), "schedule": sch.String(),
+					"universal": u2.Brief(), "specific": s2.Brief(), "specific_entry": se.Name()})
+			}
 		}
 	}
 }
